@@ -19,7 +19,7 @@ import (
 
 // nonEmptyEventAnswers counts event queries that returned at least one event (evidence that the
 // event comparison is not vacuous).
-var nonEmptyEventAnswers atomic.Int64
+var nonEmptyEventAnswers, nonEmptyFilteredAnswers atomic.Int64
 
 // errClass maps an error of the code under test to the small enum the model speaks.
 func errClass(err error) string {
@@ -45,6 +45,7 @@ type blockCtx struct {
 	MsgHash  []*eth.Hash
 	OnChain  bool   // N <= height of the chain
 	Head     uint64 // head of the node under test (upper end of event queries)
+	EvAddr   *felt.Felt
 }
 
 func ctxOf(b *lib.Bundle, n uint64) blockCtx {
@@ -174,6 +175,31 @@ func readerQueries() []realQuery {
 		}},
 		{"pruner.RequireRetained", "requireRetained", func(_ BC, raw R, c blockCtx) []qcall {
 			return one("", func() (any, error) { return nil, pruner.RequireRetained(raw, c.N) })
+		}},
+		{"EventFilter.Events(address)", "eventsFrom", func(bc BC, _ R, c blockCtx) []qcall {
+			// events of [N, head] emitted by one address: the bloom filters really select blocks
+			if c.EvAddr == nil {
+				return nil
+			}
+			return one(fmt.Sprintf("to%d", c.Head), func() (any, error) {
+				ef, err := bc.EventFilter([]felt.Address{felt.Address(*c.EvAddr)}, nil,
+					func() (blockchain.PreConfirmedReader, error) { return nil, nil })
+				if err != nil {
+					return nil, err
+				}
+				defer ef.Close()
+				if err := ef.SetRangeEndBlockByNumber(blockchain.EventFilterFrom, c.N); err != nil {
+					return nil, err
+				}
+				if err := ef.SetRangeEndBlockByNumber(blockchain.EventFilterTo, c.Head); err != nil {
+					return nil, err
+				}
+				evs, tok, err := ef.Events(nil, 1<<20)
+				if err == nil && len(evs) > 0 {
+					nonEmptyFilteredAnswers.Add(1)
+				}
+				return []any{evs, tok.String()}, err
+			})
 		}},
 		{"EventFilter.Events", "eventsFrom", func(bc BC, _ R, c blockCtx) []qcall {
 			// every event of [N, head], no address / key filter, one chunk
